@@ -98,5 +98,7 @@ def run(ctx):
     ds.run_cli_stream(ctx, 6 if quick else 100, 3, props={'C01'}, stream='hidden_user_files', script=ds.script_remove_with_hidden_user_files, setup=ds.setup_all_targets)
     ds.run_cli_stream(ctx, 6 if quick else 100, 3, props={'C01'}, stream='foreign_manifest', script=ds.script_foreign_manifest, setup=ds.setup_all_targets)
     ds.run_cli_stream(ctx, 5 if quick else 80, 2, props={'C01'}, stream='prefix_siblings', script=ds.script_prefix_siblings)
+    ds.run_hist_stream(ctx, 6 if quick else 80, 4, props={'C01'}, weights={'deploy': 1}, stream='restore_over_user_files',
+                       plan_script=ds.hist_restore_over_user_files, setup=ds.setup_all_targets)
     import_stream(ctx, 24 if quick else 400)
     ds.run_lib_stream(ctx, 80 if quick else 1500, props={'C01'})
